@@ -114,7 +114,9 @@ def tuple_items(t):
 # ---------------------------------------------------------------------------------------------
 
 def auth_nodes(g, pred):
-    return [e.node for e in auths(g) if pred(e.subject)]
+    """require_auth sites whose subject satisfies pred. require_auth_for_args is NOT accepted as establishing
+    authorisation of this call: it binds an argument list chosen by the contract, not the actual invocation."""
+    return [e.node for e in auths(g) if pred(e.subject) and not e.for_args]
 
 
 def guard_sel(g, pred):
